@@ -20,6 +20,7 @@ import r28_puregen
 import r29_energyscale
 import r30_record
 import r31_reject
+import r32_virial
 import r06_validate
 import r07_cache
 import r08_toporder
@@ -147,6 +148,10 @@ R31_SCOPES = {
 
 def r31(ctx, prop):
     return r31_reject.run(ctx.F(), R31_SCOPES[prop])
+
+
+def r32(ctx, prop):
+    return r32_virial.run(ctx.F())
 
 
 def r30(ctx, prop):
@@ -327,7 +332,7 @@ PROPERTY_RULES = {
     "C15": [r15],
     "C20": [r10_transport, r21, r25, r24],
     "C01": [r1_all, r2, r7, r8, r4, r25, r24, r26, r28, r29],
-    "C13": [r1_guard, r8, r21],
+    "C13": [r1_guard, r8, r21, r32],
     "C17": [r1_functional, r8, r22, r25, r21, r26, r28],
     "C11": [r9, r7],
     "C03": [r6, r17, r4, r5, r25, r24, r26, r31],
